@@ -637,7 +637,13 @@ static void DecodeEmulOneToTwo(Word Code) {
         else if ((DestParts.Mode == eModeRegDisp) && (DestParts.Part == RegPC)) {
             LongWord NewDist = DestParts.Val - 2;
 
-            if ((DestParts.Val & 0x8000) && !(NewDist & 0x8000)) {
+            /* below 64K the CPU truncates PC + displacement to 16 bits
+               (see DecodeAdr): the fix-up wraps like the displacement
+               itself, every address stays reachable */
+
+            if (EProgCounter() <= 0xffff) {
+                NewDist &= 0xffff;
+            } else if ((DestParts.Val & 0x8000) && !(NewDist & 0x8000)) {
                 WrError(ErrNum_DistTooBig);
                 return;
             }
